@@ -11,6 +11,7 @@ D = 40      # lattice of forces: multiples of 1/40 (Jacobian terms 2kT/r with r 
 COMPS = {
     "distance": "distance {\n group1 { atomNumbers 1 2 }\n group2 { atomNumbers 3 4 }\n%s }\n",
     "distanceZ": "distanceZ {\n main { atomNumbers 1 2 }\n ref { atomNumbers 3 4 }\n axis (1, 2, 2)\n%s }\n",
+    "distanceZ-ref2": "distanceZ {\n main { atomNumbers 1 2 }\n ref { atomNumbers 3 4 }\n ref2 { atomNumbers 5 6 }\n%s }\n",
     "distanceXY": "distanceXY {\n main { atomNumbers 1 2 }\n ref { atomNumbers 3 4 }\n axis (0, 0, 1)\n%s }\n",
     "angle": "angle {\n group1 { atomNumbers 1 }\n group2 { atomNumbers 2 3 }\n group3 { atomNumbers 4 }\n%s }\n",
     "dihedral": "dihedral {\n group1 { atomNumbers 1 }\n group2 { atomNumbers 2 }\n group3 { atomNumbers 3 }\n group4 { atomNumbers 4 5 }\n%s }\n",
@@ -145,7 +146,7 @@ def record(ctx, nruns, nsteps):
 
 
 def run(ctx):
-    ctx.rule = ("closed-loop executions of the real code: component in {distance, distanceZ, distanceXY, angle, dihedral, gyration, rmsd, eigenvector, +1/-1 combination of two distances}, "
+    ctx.rule = ("closed-loop executions of the real code: component in {distance, distanceZ (fixed axis and moving axis ref-ref2), distanceXY, angle, dihedral, gyration, rmsd, eigenvector, +1/-1 combination of two distances}, "
                 "random masses and lattice geometries changing every step, oneSiteTotalForce, both force-timing conventions, subtractAppliedForce, engine multiplier lam in {0,1,-2}, noise on outsiders, "
                 "T = 0 (all) and kT = 1 (distance at Pythagorean separations); non-trivial = lam != 0 or subtractAppliedForce; distinct by (run, step)")
     ctx.assumptions = [
